@@ -16,6 +16,10 @@ class TC:
             self.flags = b.aldor_flags()
             self.link = b.link_aldor()
             self.lib = '-laldor'
+        elif dialect == 'axllib':
+            self.flags = b.axllib_flags()
+            self.link = b.link_axllib()
+            self.lib = '-laxllib'
         else:
             self.flags = b.foamlib_flags()
             self.link = b.link_foamlib()
